@@ -18,7 +18,7 @@ THEOREMS = [L + t for t in (
     "closed_after_unregister", "closed_after_goroutines_exit", "channels_closed_once", "channels_closed_by_owner",
     "stop_terminates", "workers_only_when_registered", "lock_order_acyclic_modulo_feedback",
     "f37_as_is_stuck", "no_stuck_statement_fails_as_is", "f38_failed_connect_as_is_stuck", "f38_stop_as_is_leaves_connection",
-    "serve_joins_all_goroutines", "conn_tracked_until_closed", "f37_stop_as_is_stuck", "f47_once_deadlock_as_is_stuck", "f48_auth_send_as_is_stuck", "f49_as_is_poll_without_queue",
+    "serve_joins_all_goroutines", "conn_tracked_until_closed", "channel_close_sites", "f37_stop_as_is_stuck", "f47_once_deadlock_as_is_stuck", "f48_auth_send_as_is_stuck", "f49_as_is_poll_without_queue",
     "lock_feedback_empty", "lock_order_acyclic")]
 COMPS = ["broker"]          # Go side; the Lean side is oracle_lifecycle (LifecycleStream.model)
 NEEDS_FACTS = ["Locks", "Serve"]
@@ -39,7 +39,7 @@ def _after(rng):
 
 def gen(rng):
     kind = rng.choice(["disc", "disc", "err", "err", "boundary", "failconn", "failconn", "takeover", "stop", "stop",
-                       "stalled", "preclose", "auth", "hold", "hold"] + (["timeout"] if rng.random() < 0.12 else []))
+                       "stalled", "preclose", "auth", "hold", "hold", "holdclose"] + (["timeout"] if rng.random() < 0.12 else []))
     zl = 0
     ops = [f"new qt={QT} lc=1 ret=0 zl={zl}"]
     v = rng.choice([4, 4, 5, 5, 3])
@@ -125,6 +125,21 @@ def gen(rng):
             elif how == "mal":
                 ops.append("burst a MAL")
             ops += ["census", "counts", "lcev", "release", "census", "counts", "lcev"]
+    elif kind == "holdclose":
+        # the tear-down of a connection is in progress (internalClose is inside the OnClosed hook of a client id hc…, which waits
+        # for `release`) when Stop is called / another connection comes: Stop's return has to wait for it
+        ops.append(f"conn a hc1 v={v}")
+        if rng.random() < 0.5:
+            ops.append(f"conn b cb v={rng.choice([4, 5])}")
+        if rng.random() < 0.4:
+            ops.append("burst a SUB:2:lc/x")
+        ops.append(rng.choice(["lclose a", "lclose a", "burst a DISC", "burst a MAL"]))
+        ops += ["census", "counts"]
+        if rng.random() < 0.6:
+            ops.append("lstop release=1")
+            tail = False
+        else:
+            ops += ["lcev", "release", "census", "counts", "lcev"]
     elif kind == "preclose":
         ops += [f"rawconn a v={v}", "lclose a", "census", "counts"]
     elif kind == "stop":
@@ -214,6 +229,10 @@ class Ref:
         # registered, until the handler returns ("zombie")
         if n in self.held:
             self.st[n] = "zombie"
+        elif self.st[n] == "reg" and self.cid.get(n, "").startswith("hc"):
+            # internalClose waits inside the OnClosed hook: serve() stays, the client stays registered, its subscriptions stay
+            self.evs.append("closed:" + self.cid[n])
+            self.st[n] = "czombie"
         else:
             if self.st[n] == "reg":
                 self.evs.append("closed:" + self.cid[n])
@@ -238,6 +257,13 @@ class Ref:
                 self.pending.pop(n, None)
             else:
                 self.feed(n, self.pending.pop(n, []))
+        for n in sorted(self.st):
+            if self.st[n] == "czombie":
+                self.evs.append("cdone:" + self.cid[n])
+                self.subs = {x for x in self.subs if x[0] != self.cid[n]}
+                self.st[n] = "dead"
+    def czombies(self):
+        return sum(1 for s in self.st.values() if s == "czombie")
     def feed(self, n, toks):
         for i, t in enumerate(toks):
             s = self.st.get(n)
@@ -291,7 +317,7 @@ def ev_order(evs):
         k, _, cid = e.partition(":")
         if k == "closed" and "enter:" + cid in evs and ("exit:" + cid not in evs[:i]):
             return f"OnClosed for {cid} (unregister, session and subscriptions removed, `closed` closed) ran while its handler was still working"
-        if k == "onstop" and any(x.startswith(("exit:", "closed:")) for x in evs[i + 1:]):
+        if k == "onstop" and any(x.startswith(("exit:", "closed:", "cdone:")) for x in evs[i + 1:]):
             return "OnStop ran (Stop returned) before a packet handler / a connection had finished"
     return None
 
@@ -363,7 +389,7 @@ def predicate(ops, out):
                     ref.server_ends(n)                   # CONNECT timeout
         elif f[0] == "counts":
             on = int(dict(x.split("=", 1) for x in raw.split() if "=" in x)["online"])
-            want = ref.registered() + ref.zombies()
+            want = ref.registered() + ref.zombies() + ref.czombies()
             if on != want:
                 return ("[F37] a client whose connection has ended is still registered in srv.clients — "
                         f"`{op}`: online={on}, connections still attached: {want}" if on > want else
@@ -375,6 +401,12 @@ def predicate(ops, out):
                 return f"`{op}`: unreadable census `{raw}`"
             sv, rd, wr, hd, pl = (int(m.group(i)) for i in range(1, 6))
             a, r, z = ref.alive(), ref.registered(), ref.zombies()
+            cz = ref.czombies()
+            if cz and not z:
+                if (sv, rd, hd, pl) != (a + cz, a, r, r):
+                    return ("[teardown] a connection whose internalClose is still inside the OnClosed hook must still have its serve() goroutine and "
+                            f"nothing else — `{op}`: serve={sv} read={rd} write={wr} handle={hd} poll={pl}, expected serve={a + cz} read={a} handle={r} poll={r}")
+                continue
             if z and (sv, rd, hd, pl) != (a + z, a, r + z, r):
                 return ("[join] serve() must wait for the packet handler before internalClose: a connection has ended while its handler is "
                         f"still inside a hook — `{op}`: serve={sv} read={rd} write={wr} handle={hd} poll={pl}, expected serve={a + z} "
@@ -390,6 +422,10 @@ def predicate(ops, out):
                 if (ref.held or ref.zombies()) and got.get("early") != "0":
                     return (f"[join] Stop returned while a packet handler of a connection was still working (held={got.get('held')}) — "
                             f"`{op}`: {raw}")
+                if ref.czombies() and got.get("early") != "0":
+                    return ("[teardown] Stop returned while the tear-down of a connection (internalClose: OnClosed hook, unregister, will, session "
+                            f"end) was still in progress — `{op}`: {raw}")
+                ref.release()
                 bad = ev_order([] if got.get("ev", "-") == "-" else got["ev"].split(","))
                 if bad:
                     return f"[join] {bad} — `{op}`: {raw}"
